@@ -274,3 +274,9 @@ roundtrip_contract('rules:assignment:numeric-frequency', SPECIES, [(['A'], ['B']
 for _tag, _freq in (('text-exponent', '2.5e1'), ('text-small-exponent', '1e-3'), ('float-exponent-form', 5e-05), ('text-leading-dot', '.5'), ('integer', 3)):
     roundtrip_contract('rules:assignment:frequency-' + _tag, SPECIES, [(['A'], ['B'], 'massaction', {'k': 'kf'})], ['kf'], False,
                        rules=[('assignment', {'equation': 'C = kf * A + B'}, _freq), ('additive', {'equation': 'D = A + B'}, 'dt')])
+# species whose names equal a reserved word of the expression language up to case (T, Volume, Time): valid SBML ids and ordinary species for
+# the case-sensitive parser; they round-trip with their initial values like any other (seed C12-e filtered them case-insensitively on import)
+for _sto in (False, True):
+    roundtrip_contract('species-named-like-keywords', ['A', 'T', 'Volume', 'P'],
+                       [(['A'], ['T'], 'massaction', {'k': 'kf'}), (['T'], ['P'], 'general', {'rate': 'kf*T/(1 + Volume)'}), (['P'], [], 'hillnegative', dict(HILLPD, s1='Volume'))],
+                       ['kf', 'Kd', 'nh'], _sto)
